@@ -355,7 +355,7 @@ func runC19(c *Ctx) {
 	}
 	if f := c.fn("directory-table", "mem/cache", "", "DirectoryFindVictim"); f != nil {
 		t := ExtractTable(p, f, TableConfig{Domain: dom, LoopsOnce: true})
-		ok, why := len(t.Unsupported) == 0 && len(t.Rows) > 0, "outside the analysable fragment"
+		ok, why := len(t.Unsupported) == 0 && len(t.Rows) > 0, "outside the analysable fragment: "+strings.Join(t.Unsupported, "; ")
 		inLoopReturn := false
 		for _, r := range t.Rows {
 			lk := r.Atom(func(a *Atom) bool { return a.IsBool && a.HasName("IsLocked") })
@@ -366,6 +366,46 @@ func runC19(c *Ctx) {
 				if strings.HasPrefix(ret, "value-of(") {
 					inLoopReturn = true
 					if lk.B || rc == nil || rc.I != 0 {
+						ok, why = false, "the scan returns a block that is locked or being read"
+					}
+				}
+			}
+		}
+		if ok && !inLoopReturn {
+			// the scan is not a `range` loop (index loop, guard clauses): decide the same
+			// thing on SSA — every return inside the loop is reached only with IsLocked
+			// found false and ReadCount found zero
+			if sf := p.SSAFunc(f); sf != nil {
+				loops := loopsOf(sf)
+				for _, b := range sf.Blocks {
+					if _, isRet := b.Instrs[len(b.Instrs)-1].(*ssa.Return); !isRet {
+						continue
+					}
+					// leaves the loop from its body (the exit from the header is the fallback)
+					fromBody := false
+					for _, pr := range b.Preds {
+						for _, l := range loops {
+							if l.blocks[pr] && pr != l.header {
+								fromBody = true
+							}
+						}
+					}
+					if !fromBody {
+						continue
+					}
+					inLoopReturn = true
+					unlocked, unread := false, false
+					for _, fact := range FactsAt(b) {
+						if valueReadsField(fact.Cond, "IsLocked") && !fact.Truth {
+							unlocked = true
+						}
+						if bo, isBO := fact.Cond.(*ssa.BinOp); isBO && valueReadsField(bo.X, "ReadCount") && constIs(bo.Y, "0") {
+							if (bo.Op == token.EQL && fact.Truth) || ((bo.Op == token.NEQ || bo.Op == token.GTR) && !fact.Truth) {
+								unread = true
+							}
+						}
+					}
+					if !unlocked || !unread {
 						ok, why = false, "the scan returns a block that is locked or being read"
 					}
 				}
